@@ -129,7 +129,51 @@ def r4_whole_value_stores(ctx):
                     )
 
 
+def r5_per_call_state_is_local(ctx):
+    """Every name the generated entry point mutates during a call is created by the entry point itself in that call."""
+    from ..skeleton import emissions
+
+    gen = A.entry_generator(ctx.repo)
+    ctx.touch(gen)
+    ems = emissions(gen.node)
+    mutated = {}
+    created = {}
+    for e in ems:
+        sk = e.skeleton
+        text = sk.text.strip()
+        try:
+            tree = ast.parse(text if not text.endswith(":") else text + " pass")
+        except SyntaxError:
+            continue
+        for n in ast.walk(tree):
+            if isinstance(n, ast.Assign):
+                t = n.targets[0]
+                if isinstance(t, ast.Subscript) and isinstance(t.value, ast.Name) and t.value.id.isupper():
+                    mutated.setdefault(t.value.id, e)
+                elif isinstance(t, ast.Name) and t.id.isupper() and isinstance(n.value, (ast.Dict, ast.List, ast.Set)) and not (getattr(n.value, "keys", None) or getattr(n.value, "elts", None)):
+                    created.setdefault(t.id, e)
+            elif isinstance(n, ast.Call) and isinstance(n.func, ast.Attribute) and n.func.attr in ("append", "add", "update", "clear", "extend", "pop") and isinstance(n.func.value, ast.Name) and n.func.value.id.isupper():
+                mutated.setdefault(n.func.value.id, e)
+    ctx.require(mutated, f"{gen.key}: the generated entry point no longer collects optional keywords in per-call containers (restructured)")
+    for name, e in sorted(mutated.items()):
+        ctx.ob(
+            f"{gen.key}:per-call:{name}",
+            gen.loc(e.node),
+            f"the container `{name}` that the generated entry point fills during a call is created afresh by the entry point in every call (`{name} = <empty literal>` is emitted)",
+            name in created,
+            f"the generated entry point mutates `{name}` but never creates it: the container lives outside the call and is shared by concurrent (and re-entrant) calls, so one call is dispatched with another call's keyword arguments",
+        )
+
+
+def r6(ctx):
+    from .c05 import r1_derived_tables_flushed
+
+    r1_derived_tables_flushed(ctx)
+
+
 RULES = [
+    ("C19.R6", "P1", r6, "bookkeeping read by concurrent lookups is written before the entry that makes them possible"),
+    ("C19.R5", "P1", r5_per_call_state_is_local, "the generated entry point keeps its per-call state in locals"),
     ("C19.R1", "P1", r1, "publish last (interleaving reading)"),
     ("C19.R2", "P1", r2, "commit last (interleaving reading)"),
     ("C19.R3", "P1", r3_builders_excluded_or_private, "builders are excluded or private"),
